@@ -215,6 +215,8 @@ def build_config(spec: dict):
     from emu_mps.solver import Solver
     kw = dict(observables=observables(spec.get("obs", [["Occupation", None]])),
               noise_model=noise_model(spec.get("noise", {})))
+    if spec.get("prefer"):
+        kw["prefer_device_noise_model"] = True
     if spec["backend"] == "sv":
         return compat.sv_config(**kw)
     return compat.mps_config(solver=Solver.DMRG if spec["solver"] == "dmrg" else Solver.TDVP,
@@ -328,11 +330,14 @@ CHANNELS = {"gr": ["rydberg_global"], "dig": ["raman_global"], "xy": ["mw_global
             "dig,gr": ["rydberg_global", "raman_global"]}
 
 
-def pulser_sequence(bases: str, n: int = 2):
-    key = (bases, n)
+def pulser_sequence(bases: str, n: int = 2, dev_noise: dict | None = None):
+    key = (bases, n, json.dumps(dev_noise, sort_keys=True))
     if key not in _SEQS:
+        import dataclasses
         import pulser
         from pulser.devices import MockDevice
+        if dev_noise is not None:
+            MockDevice = dataclasses.replace(MockDevice, default_noise_model=noise_model(dev_noise))
         reg = pulser.Register.from_coordinates([[7.0 * i, 0.0] for i in range(n)], prefix="q")
         s = pulser.Sequence(reg, MockDevice)
         for i, c in enumerate(CHANNELS[bases]):
@@ -385,34 +390,64 @@ def pipeline_real(backend: str, it: str, dim: int, nmspec: dict, solver: str):
     return o, data, cfg, info
 
 
-def sequence_real(backend: str, bases: str, nmspec: dict, solver: str):
-    """A real Pulser sequence through the real `PulserData.__init__` and `get_sequences`, then the
-    real back-end (the only shim: the (k,N,N) interaction tensor of pulser-core 1.9.1 is reduced
-    to its first (N,N) slice). → (outcome | `pulser-refused`, reported (it, dim) | None)"""
+def sequence_real(backend: str, bases: str, nmspec: dict, solver: str, dev_noise: dict | None = None,
+                  prefer: bool = False):
+    """A real Pulser sequence through the real `<Backend>(sequence, config=…).run()` — the API the
+    property speaks about. The only shim (pulser-core 1.9.1, see harness/compat.py): the (k,N,N)
+    interaction tensor of every `SequenceData` yielded by the real `get_sequences` is reduced to its
+    first (N,N) slice. → (outcome | `pulser-refused`, Pulser's reported (interaction type, dim) | None,
+    first SequenceData | None, config, info)"""
     compat.install()
     import dataclasses
     import emu_base.pulser_adapter as pa
-    cfg = build_config(dict(backend=backend, solver=solver, noise=nmspec))
-    seq = pulser_sequence(bases)
-    rep_basis = None
-    try:
-        pd = pa.PulserData(sequence=seq, config=cfg, dt=10.0)
-        rep_basis = (pd.hamiltonian.basis_data.interaction_type, pd.hamiltonian.basis_data.dim)
-        sds = []
-        for sd in pd.get_sequences():
+    import emu_mps.mps_backend_impl as mbi
+    cfg = build_config(dict(backend=backend, solver=solver, noise=nmspec, prefer=prefer))
+    seq = pulser_sequence(bases, dev_noise=dev_noise)
+    basis, captured, info = [], [], {"make_H": []}
+    real_gs, real_fs, real_make_H = pa.PulserData.get_sequences, pa.HamiltonianData.from_sequence, mbi.make_H
+
+    def squeezed(self):
+        for sd in real_gs(self):
             im = sd.interaction_matrix
             full, masked = im.full_matrix, im.masked_matrix
             if full.ndim == 3:
                 full, masked = full[0], masked[0]
-            sds.append(dataclasses.replace(sd, interaction_matrix=pa._InteractionMatrixCallable(
-                full, masked, im.slm_end_time)))
-            break
+            sd = dataclasses.replace(sd, interaction_matrix=pa._InteractionMatrixCallable(full, masked, im.slm_end_time))
+            captured.append(sd)
+            yield sd
+
+    def rec_fs(*a, **kw):
+        h = real_fs(*a, **kw)
+        basis.append((h.basis_data.interaction_type, h.basis_data.dim))
+        return h
+
+    def rec_make_H(*a, **kw):
+        info["make_H"].append((kw["hamiltonian_type"].name, kw.get("dim", 2)))
+        return real_make_H(*a, **kw)
+
+    if backend == "sv":
+        from emu_sv.sv_backend import SVBackend as B
+    else:
+        from emu_mps.mps_backend import MPSBackend as B
+    try:
+        with mock.patch.object(pa.PulserData, "get_sequences", squeezed), \
+                mock.patch.object(pa.HamiltonianData, "from_sequence", staticmethod(rec_fs)), \
+                mock.patch.object(mbi, "make_H", rec_make_H), contextlib.redirect_stdout(io.StringIO()):
+            res = B(seq, config=cfg).run()
     except Exception as e:
+        rb = basis[0] if basis else None
         if not raised_in_repo(e):
-            return "pulser-refused", rep_basis, None, cfg, {}
-        return "raise " + canon_exc(e), rep_basis, None, cfg, {"exc": str(e)[:120]}
-    o, info = run_real(backend, sds[0], cfg)
-    return o, rep_basis, sds[0], cfg, info
+            return "pulser-refused", rb, None, cfg, {}
+        info["exc"] = f"{type(e).__name__}: {str(e)[:160]}"
+        return "raise " + canon_exc(e), rb, (captured[0] if captured else None), cfg, info
+    rb = basis[0] if basis else None
+    data = captured[0] if captured else None
+    if type(res).__name__ != "Results":
+        return "other:" + type(res).__name__, rb, data, cfg, info
+    if backend == "sv":
+        return "emulate rydberg2", rb, data, cfg, info
+    ht, dim = info["make_H"][0] if info["make_H"] else ("?", 0)
+    return f"emulate {'rydberg' if ht == 'Rydberg' else 'xy'}{dim}", rb, data, cfg, info
 
 
 # --------------------------------------------------------------------------- MPSConfig
